@@ -2,6 +2,7 @@ package sim
 
 import (
 	"fmt"
+	"sort"
 
 	"go.etcd.io/raft/v3"
 	pb "go.etcd.io/raft/v3/raftpb"
@@ -73,7 +74,11 @@ func (c *Cluster) randomAction() {
 			})
 		}
 		if c.O.Reads {
-			add(3, func() { c.readIndex(pick(c.Rng, alive)) })
+			w := 3
+			if c.O.JointHeavy {
+				w = 9
+			}
+			add(w, func() { c.readIndex(pick(c.Rng, alive)) })
 		}
 		if c.O.Compaction {
 			add(2, func() { c.compact(pick(c.Rng, alive)) })
@@ -89,7 +94,7 @@ func (c *Cluster) randomAction() {
 			add(3, func() { c.reportSnapshot() })
 			add(1, func() {
 				// the transport may report the target of a snapshot unreachable before its outcome is known
-				for k := range c.snapsInFlight {
+				for _, k := range c.snapKeys() {
 					if n := c.Nodes[k[0]]; n != nil && n.Alive && n.RN != nil {
 						c.trace("report unreachable %d->%d (snapshot in flight)", k[0], k[1])
 						n.ReportUnreachable(k[1])
@@ -261,8 +266,18 @@ func (c *Cluster) readIndex(n *Node) {
 	n.ReadIndex(ctx)
 }
 
-func (c *Cluster) reportSnapshot() {
+// snapKeys: the snapshots in flight in a fixed order (map iteration order must not leak into the schedule)
+func (c *Cluster) snapKeys() [][2]uint64 {
+	ks := make([][2]uint64, 0, len(c.snapsInFlight))
 	for k := range c.snapsInFlight {
+		ks = append(ks, k)
+	}
+	sort.Slice(ks, func(i, j int) bool { return ks[i][0] < ks[j][0] || (ks[i][0] == ks[j][0] && ks[i][1] < ks[j][1]) })
+	return ks
+}
+
+func (c *Cluster) reportSnapshot() {
+	for _, k := range c.snapKeys() {
 		delete(c.snapsInFlight, k)
 		n := c.Nodes[k[0]]
 		if n == nil || !n.Alive || n.RN == nil {
@@ -309,6 +324,17 @@ func (c *Cluster) randomConfChange(n *Node) pb.ConfChangeI {
 			id := c.nextID
 			return id
 		}
+		// changes that hit the leader itself or the target of a pending transfer are the rare ones
+		switch c.Rng.Intn(8) {
+		case 0:
+			if st.Lead != 0 {
+				return st.Lead
+			}
+		case 1:
+			if st.LeadTransferee != 0 {
+				return st.LeadTransferee
+			}
+		}
 		return pick(c.Rng, c.IDs)
 	}
 	nchg := 1
@@ -317,6 +343,16 @@ func (c *Cluster) randomConfChange(n *Node) pb.ConfChangeI {
 	}
 	if joint && c.Rng.Intn(3) != 0 {
 		nchg = 0 // leave joint
+	}
+	if c.O.JointHeavy { // stay in joint configurations: enter with two changes, leave rarely
+		if joint {
+			nchg = 0
+			if c.Rng.Intn(6) != 0 {
+				return nil
+			}
+		} else {
+			nchg = 2
+		}
 	}
 	remaining := len(voters)
 	for i := 0; i < nchg; i++ {
@@ -355,6 +391,9 @@ func (c *Cluster) randomConfChange(n *Node) pb.ConfChangeI {
 		cc = &pb.ConfChange{Type: changes[0].GetType().Enum(), NodeId: new(changes[0].GetNodeId())}
 	} else {
 		tr := pb.ConfChangeTransition(c.Rng.Intn(3))
+		if c.O.JointHeavy {
+			tr = pb.ConfChangeTransitionJointExplicit
+		}
 		if nchg == 0 {
 			tr = pb.ConfChangeTransitionAuto
 		}
@@ -460,7 +499,7 @@ func (c *Cluster) converge() {
 				busy = true
 			}
 			for len(c.snapsInFlight) > 0 {
-				for k := range c.snapsInFlight {
+				for _, k := range c.snapKeys() {
 					delete(c.snapsInFlight, k)
 					if n := c.Nodes[k[0]]; n != nil && n.Alive && n.RN != nil {
 						n.ReportSnapshot(k[1], false)
